@@ -98,6 +98,10 @@ def tu_of(f, op, rep, rep2, r, c, p):
         return r if op == "leftmultiply" else c
     if op.startswith("xr_") or op.startswith("xw_"):
         return 1
+    if op == "xasgm":          # round 6: fully dynamic pairs run in any translation unit
+        return (r - 1) % MAXN + 1 if (rep == "DM" and rep2 in ("DM", "TD", "XD", "K")) else r
+    if op == "xasgv":
+        return (r - 1) % MAXN + 1 if (rep == "DV" and rep2 in ("DV", "XW", "K")) else r
     static = any(x in ("FM", "DG", "FV", "SV", "SW", "TF", "TG", "SC", "FD", "DF") for x in (rep, rep2))
     if static:
         return r
@@ -427,6 +431,78 @@ def gen_extra(ctx):
                         emit("xw_" + op, rep, rep2, 1, 0, 0, [g.scalar(), g.elem(101), g.elem(103)])
                     dv = g.divisor()
                     emit("xw_vdiv", rep, rep2, 1, 0, 0, [g.dstr(dv), g.times(g.elem(101), dv), g.elem(103)])
+            # ---- round 6: the PRE-EXISTING STATE OF THE TARGET of an assignment / conversion (mutants/C01/API_COVERAGE.md "Round 6"):
+            # every target class x every source class, the target holding other NON-ZERO entries everywhere and, for
+            # DynamicMatrix / DynamicVector targets, another shape (more / fewer rows, more / fewer columns, 1x1, empty, transposed shape)
+            cross = f in ("D", "C")
+
+            def nz():
+                if f == "C":
+                    return "%d:%d" % (rng.choice([2, 3, 4, 5, 6, -2, -3]), rng.choice([1, 2, 3, -1, -2]))
+                return str(rng.choice([1, 2, 3, 4, 5, 6, -1, -2, -3, -4, -5, -6]))
+
+            def dirty(n):
+                return [nz() for _ in range(n)]
+
+            def preshapes(r, c):
+                return [(r, c), (r + 1, c), (r, c + 2), (1, 1), (0, 0), (c + 1, r + 1), (max(r - 1, 1), c), (r, max(c - 1, 1)), (r + 2, c + 3), (2, 0)]
+            rot = [0]
+
+            def some_pre(r, c):
+                ps = preshapes(r, c)
+                if not quick:
+                    return sorted(set(ps))
+                rot[0] += 1
+                return sorted(set([ps[0], ps[1 + rot[0] % 3], ps[4 + rot[0] % 6]]))
+            for r in S:
+                for c in S:
+                    srcs = [("FM", lambda: M(r, c, 97)), ("DM", lambda: M(r, c, 97))]
+                    if (r + c + d) % 2 == 0 or not quick:
+                        srcs += [("TF", lambda: M(c, r, 97)), ("TD", lambda: M(c, r, 97))]
+                    if cross:
+                        srcs += [("XF", lambda: MS(r, c, 97)), ("XD", lambda: MS(r, c, 97))]
+                    if r == c:
+                        srcs += [("DG", lambda: g.vec(r, 97))] + ([("XG", lambda: MS(1, r, 97))] if cross else [])
+                        if r >= 2:     # a diagonal with a zero entry and a target with exactly one non-zero off-diagonal entry
+                            t0 = ["0:0" if f == "C" else "0"] * (r * r); t0[1] = nz()
+                            dz = g.vec(r, 97); dz[rng.randrange(r)] = "0:0" if f == "C" else "0"
+                            emit("xasgm", "FM", "DG", r, r, 0, [g.scalar()] + t0 + dz)
+                    if r == 1 and c == 1:
+                        srcs += [("SV", lambda: [g.elem(97)]), ("SC", lambda: [g.elem(97)])]
+                    for (sk, mk) in srcs:
+                        emit("xasgm", "FM", sk, r, c, 0, [g.scalar()] + dirty(r * c) + mk())
+                        for (r0, c0) in some_pre(r, c):
+                            emit("xasgm", "DM", sk, r, c, 100 * r0 + c0, [g.scalar()] + dirty(r0 * c0) + mk())
+                    emit("xasgm", "FM", "K", r, c, 0, [g.scalar()] + dirty(r * c))
+                    emit("xasgm", "DM", "K", r, c, 100 * r + c, [g.scalar()] + dirty(r * c))
+                emit("xasgm", "DG", "DG", r, r, 0, [g.scalar()] + dirty(r) + g.vec(r, 97))
+                emit("xasgm", "DG", "K", r, r, 0, [g.scalar()] + dirty(r))
+            for ((r, c), (r0, c0)) in [((6, 6), (2, 3)), ((2, 0), (3, 3)), ((5, 1), (1, 5)), ((1, 7), (9, 7)), ((9, 12), (12, 9)), ((3, 3), (0, 0))]:
+                emit("xasgm", "DM", "DM", r, c, 100 * r0 + c0, [g.scalar()] + dirty(r0 * c0) + M(r, c, 97))
+                if c:
+                    emit("xasgm", "DM", "TD", r, c, 100 * r0 + c0, [g.scalar()] + dirty(r0 * c0) + M(c, r, 97))
+                    if cross:
+                        emit("xasgm", "DM", "XD", r, c, 100 * r0 + c0, [g.scalar()] + dirty(r0 * c0) + MS(r, c, 97))
+            emit("xasgm", "DM", "K", 2, 0, 200, [g.scalar()])
+            emit("xasgm", "DM", "K", 0, 0, 0, [g.scalar()])
+            for sk in ("K", "SV", "SC", "FM"):
+                emit("xasgm", "SV", sk, 1, 1, 0, [g.scalar(), nz()] + ([] if sk == "K" else [g.elem(97)]))
+                emit("xasgv", "SW", "FV" if sk == "FM" else ("SW" if sk == "SV" else sk), 1, 0, 0, [g.scalar(), nz()] + ([] if sk == "K" else [g.elem(101)]))
+            for n in S:
+                vs = [("FV", lambda: g.vec(n, 101)), ("DV", lambda: g.vec(n, 101))] + ([("XV", lambda: MS(1, n, 101)), ("XW", lambda: MS(1, n, 101))] if cross else [])
+                if n == 1:
+                    vs += [("SW", lambda: [g.elem(101)])]
+                for (sk, mk) in vs:
+                    emit("xasgv", "FV", sk, n, 0, 0, [g.scalar()] + dirty(n) + mk())
+                    if sk != "XV":
+                        for n0 in ([n, n + 2, 1, 0] if sk == "DV" else [n]):
+                            emit("xasgv", "DV", sk, n, 0, n0, [g.scalar()] + dirty(n0) + mk())
+                emit("xasgv", "FV", "K", n, 0, 0, [g.scalar()] + dirty(n))
+                emit("xasgv", "DV", "K", n, 0, n, [g.scalar()] + dirty(n))
+            for (n, n0) in [(0, 5), (7, 0), (17, 20), (20, 17), (5, 5)]:
+                emit("xasgv", "DV", "DV", n, 0, n0, [g.scalar()] + dirty(n0) + g.vec(n, 101))
+                if cross and n == n0:
+                    emit("xasgv", "DV", "XW", n, 0, n0, [g.scalar()] + dirty(n0) + MS(1, n, 101))
             # 1x1 matrices / size-1 vectors used like scalars, scalar views
             for _ in range(3):
                 for op in ["xfm11adds", "xfm11sadd", "xfm11subs", "xfm11ssub", "xfm11pluseq", "xfm11minuseq", "xfm11timeseq", "xfm11mpluseq", "xfm11conv"]:
@@ -460,6 +536,8 @@ def sig_of(line):
 
 def size_of(line):
     f, op, rep, rep2, r, c, p = parse_case(line)
+    if op.startswith("xasg"):          # p encodes the previous shape of the target
+        return max(r, 1) * max(c, 1) + (p // 100) * (p % 100)
     return max(r, 1) * max(c, 1) * max(p, 1)
 
 
@@ -603,6 +681,8 @@ def run(ctx):
                 "plus the x-streams of the API-coverage audit (mutants/C01/API_COVERAGE.md): fill/copy/move/conversion between representations "
                 "and field types, mixed-field arithmetic, 1x1 / size-1 scalar overloads, FMatrixHelp, integer-exact norms, const/non-const access "
                 "and iterators, views, wrapper by value vs by reference, dynamic sizes 0/1/2/17/40 and 2x0/9x12/12x9; "
+                "round 6 (xasgm / xasgv): every assignment / conversion target class x source class (incl. scalars, views, DiagonalMatrix, asDense() results, "
+                "the other field type) INTO AN EXISTING OBJECT holding non-zero entries everywhere and, for DynamicMatrix / DynamicVector, another shape; "
                 "non-trivial = some data entry non-zero; distinct = distinct case lines" % (sorted(FIELDS), MAXN, 2 if ctx.quick else 10),
         "samples": cases[:2] + cases[len(cases) // 3: len(cases) // 3 + 2] + cases[-2:],
         "op_distribution": ops, "representation_pairs": reps, "fields": fields, "shapes_hit": len(shapes),
